@@ -45,13 +45,14 @@ OtherFails(ts, c) ==
                                       c.result[w][i] = Relatedness(ts, c.mode, c.sets, c.indexes[i], c.centre = 1, pol, WL(c, w), WR(c, w))
                 [] cl = "window_refinement" -> Refines(c)}
     [] c.kind = "general" ->
+         \* the summary function returns two values (c.fnames); results are [window][output] or [window][node][output]
          {cl \in {"shape", "values", "node_values", "window_refinement"} :
             ~ CASE cl = "shape" -> Len(c.result) = NW(c)
-                [] cl = "values" -> c.mode = "node" \/ \A w \in 1..NW(c) :
-                       c.result[w][1] = (IF c.mode = "site" THEN GeneralSite(ts, c.weights, c.fname, pol, WL(c, w), WR(c, w))
-                                         ELSE GeneralBranch(ts, c.weights, c.fname, pol, WL(c, w), WR(c, w)))
-                [] cl = "node_values" -> c.mode # "node" \/ \A w \in 1..NW(c) : \A u \in NodesOf(ts) :
-                       c.result[w][u + 1] = GeneralNode(ts, c.weights, c.fname, pol, WL(c, w), WR(c, w), u)
+                [] cl = "values" -> c.mode = "node" \/ \A w \in 1..NW(c) : \A q \in 1..Len(c.fnames) :
+                       c.result[w][q] = (IF c.mode = "site" THEN GeneralSite(ts, c.weights, c.fnames[q], pol, WL(c, w), WR(c, w))
+                                         ELSE GeneralBranch(ts, c.weights, c.fnames[q], pol, WL(c, w), WR(c, w)))
+                [] cl = "node_values" -> c.mode # "node" \/ \A w \in 1..NW(c) : \A u \in NodesOf(ts) : \A q \in 1..Len(c.fnames) :
+                       c.result[w][u + 1][q] = GeneralNode(ts, c.weights, c.fnames[q], pol, WL(c, w), WR(c, w), u)
                 [] cl = "window_refinement" -> c.mode = "node" \/ Refines(c)}
     [] c.kind = "traitcov" ->
          {cl \in {"shape", "values", "window_refinement"} :
@@ -80,10 +81,12 @@ OtherFails(ts, c) ==
                                       IF c.span_normalise = 1 THEN PairCoalNormOK(ts, c.sets, c.indexes[i], WL(c, w), WR(c, w), u, c.result[w][i][u + 1])
                                       ELSE c.result[w][i][u + 1] = PairCoal(ts, c.sets, c.indexes[i], WL(c, w), WR(c, w), u)}
     [] c.kind = "treedist" ->
-         {cl \in {"rf", "kc_topology", "kc_branch_length"} :
+         {cl \in {"rf", "kc_topology", "kc_half", "kc_branch_length"} :
             ~ CASE cl = "rf" -> c.rf = RF(ts, c.x, c.y, c.rx, c.ry)
-                [] cl = "kc_topology" -> c.kc0 = -1 \/ c.kc0 = KcSquared(ts, c.x, c.y, c.rx, c.ry, 0)
-                [] cl = "kc_branch_length" -> c.kc1 = -1 \/ c.kc1 = KcSquared(ts, c.x, c.y, c.rx, c.ry, 1)}
+                \* recorded: 4 x squared distance (-1: refused / not compared)
+                [] cl = "kc_topology" -> c.kc0 = -1 \/ c.kc0 = KcSquared4(ts, c.x, c.y, c.rx, c.ry, 0)
+                [] cl = "kc_half" -> c.kch = -1 \/ c.kch = KcSquared4(ts, c.x, c.y, c.rx, c.ry, 1)
+                [] cl = "kc_branch_length" -> c.kc1 = -1 \/ c.kc1 = KcSquared4(ts, c.x, c.y, c.rx, c.ry, 2)}
     [] c.kind = "ld" ->
          {cl \in {"r2"} : ~ \A q \in 1..Len(c.pairs) : R2OK(ts, c.pairs[q][1], c.pairs[q][2], c.pairs[q][3])}
     \* relations evaluated by the harness in floating point (square roots, regressions): see DESIGN 5
